@@ -369,16 +369,32 @@ func c13CheckEmitted(c c13Emit) engine.Result {
 			for i := 0; i < n; i++ {
 				sec.Streams = append(sec.Streams, ref.Stream{Type: []byte{0x1B, 0x0F, 0x86}[i%3], PID: 0x31 + i})
 			}
-			payload := append(ref.Pointer(c.Seed/4*7), sec.Bytes()...)
+			ptr := c.Seed / 4 * 7
+			if c.Seed >= 8 {
+				ptr = 0
+			}
+			payload := append(ref.Pointer(ptr), sec.Bytes()...)
 			var pkts []*packet.Packet
-			for i, rest := 0, payload; len(rest) > 0; i++ {
-				k := min(184, len(rest))
-				p := packet.Packet(ref.CarryPayload(0x64, i == 0, byte(i), ref.PadPayload(rest[:k], 184)))
-				pkts = append(pkts, &p)
-				rest = rest[k:]
+			if c.Seed >= 8 {
+				// carriers whose packets have room for DIFFERENT numbers of table bytes (adaptation fields in the first
+				// and/or second packet only, with and without PCR): the filtered table is spread over them again
+				o := [...]ref.CarryOpts{{First: 100}, {First: 184, Mid: 60}, {First: 184, Mid: 177, PCR: true}, {First: 150, Mid: 100, PCR: true}}[(c.Seed-8)/4%4]
+				o.PID, o.CC0 = 0x64, 3
+				raw, _ := ref.CarrySection(o, payload)
+				for i := range raw {
+					p := packet.Packet(raw[i])
+					pkts = append(pkts, &p)
+				}
+			} else {
+				for i, rest := 0, payload; len(rest) > 0; i++ {
+					k := min(184, len(rest))
+					p := packet.Packet(ref.CarryPayload(0x64, i == 0, byte(i), ref.PadPayload(rest[:k], 184)))
+					pkts = append(pkts, &p)
+					rest = rest[k:]
+				}
 			}
 			pids := c06PIDList(&sec)
-			if c.Seed >= 4 {
+			if c.Seed >= 4 && c.Seed < 8 {
 				// the same with a WRONG CRC_32 in the input table (nothing in the library checks it): what the filter
 				// emits must carry a right one all the same, also when every stream is kept
 				last := pkts[(len(payload)-1)/184]
@@ -391,7 +407,7 @@ func c13CheckEmitted(c c13Emit) engine.Result {
 					b, _ := packet.Payload(o)
 					pay = append(pay, b...)
 				}
-				start := 1 + c.Seed/4*7
+				start := 1 + ptr
 				if len(pay) < start+3 {
 					res.Failf("emitted-section|filtered-pmt|truncated", "keep %d of %d: %d payload bytes", k, n, len(pay))
 					continue
@@ -582,7 +598,7 @@ func init() {
 			},
 			&engine.Enum[c13Emit]{
 				Name: "emitted-sections",
-				Rule: "every captured/constructed SCTE-35 section of the seed pool decoded and re-encoded with two tier values x alignment stuffing {0,1,4}, SCTE-35 sections with section_length 900..4093 (around every multiple of 1024; every SCTE-35 section is also delimited by its own 12-bit section_length the way a receiver does, and that part must be everything emitted and have a zero residue), every PMT of the seed pool filtered to each prefix of its PID list under 5 packetisations, and tables of 60, 110, 150 and 200 descriptor-less streams (pointer_field 0 and 7; section_length 313, 563, 763, 1013, so that every pair of high length bits before/after filtering occurs; the pointer_field 7 variants carry a corrupted CRC_32 in the input, and k runs up to ALL streams) filtered to their first k streams for every k: the reference CRC of every emitted section must be zero (the exhaustive versions of this clause live in C09 and C14)",
+				Rule: "every captured/constructed SCTE-35 section of the seed pool decoded and re-encoded with two tier values x alignment stuffing {0,1,4}, SCTE-35 sections with section_length 900..4093 (around every multiple of 1024; every SCTE-35 section is also delimited by its own 12-bit section_length the way a receiver does, and that part must be everything emitted and have a zero residue), every PMT of the seed pool filtered to each prefix of its PID list under 5 packetisations, and tables of 60, 110, 150 and 200 descriptor-less streams (pointer_field 0 and 7; section_length 313, 563, 763, 1013, so that every pair of high length bits before/after filtering occurs; the pointer_field 7 variants carry a corrupted CRC_32 in the input, and k runs up to ALL streams; 16 more carriers give the packets room for different numbers of table bytes: adaptation fields in the first and/or second packet only, with and without PCR) filtered to their first k streams for every k: the reference CRC of every emitted section must be zero (the exhaustive versions of this clause live in C09 and C14)",
 				Gen: func(r *engine.Run, emit func(c13Emit)) {
 					for i := range c05SeedPools["scte35"] {
 						emit(c13Emit{"scte35", i})
@@ -590,7 +606,7 @@ func init() {
 					for i := range c05SeedPools["pmt"] {
 						emit(c13Emit{"pmt", i})
 					}
-					for i := 0; i < 8; i++ {
+					for i := 0; i < 24; i++ {
 						emit(c13Emit{"pmt-keep-first-k", i})
 					}
 					for _, t := range []int{900, 1000, 1022, 1023, 1024, 1025, 1040, 1100, 2047, 2048, 2049, 3000, 3072, 4093} {
